@@ -284,3 +284,25 @@ also7("C17", "the logging default obeys the same zero-guard rule; a store throug
 also7("C18", "the parser's error branches are taken exactly where the Atoi failed (polarity); IsMagma/IsEphemeral read the fields decoded from storageBackend/bucketType.")
 also7("C19", "whichever case other than cancellation wakes the retry wait, the failure count goes on (every select case enumerated); every background loop has a stop the close path reaches.")
 also7("C20", "derived membership settings are a fresh record per call; the registration ladder reports success only after a confirmed write; the concurrent checkpoint read waits for exactly its workers; a channel workers report on has room for every worker; defaulting never rewrites a configured timeout.")
+
+
+def also8(pid, text):
+    t, x, r = CLAIMS[pid]
+    CLAIMS[pid] = (t, x + " ALSO DECIDED (seventh seeded round): " + text, r)
+
+also8("C01", "the catch-up filter after a rollback skips only what the store already holds.")
+also8("C02", "Open does not push positions through the position writer; read-only mode survives defaulting; a session reads the checkpoints of its own group.")
+also8("C04", "the range the acknowledgement guard tests is the contiguous chunk the member owns.")
+also8("C05", "a successful save stores under this group's own key.")
+also8("C06", "the file backend returns the decoded file under the keys it was written with and never inspects a document.")
+also8("C09", "leader-assigned numbers are re-sent every round at join-ordered positions; role callbacks touch the registry only through their own steps; a dead follower leaves the group (Retry reports nil iff an attempt succeeded).")
+also8("C10", "one heart-beat round evaluated over two iterations, every ping/reconnect/register outcome.")
+also8("C11", "the rebalance lock is locked and unlocked only by Rebalance and the timer-driven reopen; the collector's uses of the observers map are dominated by its nil test.")
+also8("C12", "one opener per assigned vBucket; a reopen never lowers the persistence threshold; the Ack closure moves the position to its own event's offset exactly once; a re-open loop whose session has passed attempts nothing and does not panic (defect F6 repaired in /repo).")
+also8("C13", "the re-open retry loop has a stop the close path reaches (session counter; defect F6 repaired in /repo, the loop is no longer exempt); the serial close is selected exactly for servers below 5.5 (Lower exact).")
+also8("C15", "the module never calls recover(); AsyncOp.Wait reports its own operation's outcome; the checkpoint-beyond-high-seqno guard sees every stored document.")
+also8("C16", "the state endpoints store nothing into the API object or package variables; bus-fed memberships never update a kept announcement in place.")
+also8("C18", "the serial close's token channel has one blocking send and one blocking receive and is touched by nothing else.")
+
+also8("C15", "module-wide error discipline (257 error-returning call sites: each surfaced, or one of 44 confirmed and frozen exceptions).")
+also8("C20", "no outcome invented by swallowing an error: the module-wide error discipline of C15.R26.")
